@@ -6,8 +6,10 @@ Inductive c11case :=
 | KRoute (id : Z) (k : rconf) (path : bytes) (h : Z)                              (* -1: no route; 0.. = HHealth, HReady, HMetadata, HCert, HCallback, HSSO, HSLO, HAttr *)
 | KEp (id : Z) (path url host rel abs : bytes)
 | KMetaDoc (id : Z) (extra : list (string * dval)) (fn : string) (recv : option dval) (args : list dval) (fresh : list bytes) (obs : xml)
-    (* the served metadata document against the translated builders of metadata.go / identityprovider.go and the generated schema *).
-Definition c11_id (c : c11case) : Z := match c with KMeta i _ _ _ _ | KRoute i _ _ _ | KEp i _ _ _ _ _ | KMetaDoc i _ _ _ _ _ _ => i end.
+    (* the served metadata document against the translated builders of metadata.go / identityprovider.go and the generated schema *)
+| KDest (id : Z) (attr : bool) (eps : list (bytes * bytes * bytes)) (dest : bytes) (err : option bytes)
+    (* the Destination checks (verif hooks) against the functions go2v generates from identityprovider.go: Binding, Location, ResponseLocation per endpoint *).
+Definition c11_id (c : c11case) : Z := match c with KMeta i _ _ _ _ | KRoute i _ _ _ | KEp i _ _ _ _ _ | KMetaDoc i _ _ _ _ _ _ | KDest i _ _ _ _ => i end.
 Definition svc_code (s : service) : Z := match s with SvcSSO => 0 | SvcSLO => 1 | SvcAttr => 2 end.
 Definition h_code (h : option handler) : Z :=
   match h with None => -1 | Some HHealth => 0 | Some HReady => 1 | Some HMetadata => 2 | Some HCert => 3 | Some HCallback => 4 | Some HSSO => 5 | Some HSLO => 6 | Some HAttr => 7 end.
@@ -20,5 +22,10 @@ Definition c11_ok (c : c11case) : bool :=
   | KEp _ path url host rel ab =>
       let e := {| Endpoint_path := path; Endpoint_url := url |} in beq (Endpoint_Relative e) rel && beq (Endpoint_Absolute e host) ab
   | KMetaDoc _ extra fn recv args fresh obs => built_matches_with extra fn recv args fresh [] [] "md.EntityDescriptorType" obs
+  | KDest _ attr eps dest err =>
+      let l := map (fun e => {| EndpointType_Binding := fst (fst e); EndpointType_Location := snd (fst e); EndpointType_ResponseLocation := snd e |}) eps in
+      let r := if attr then verifyRequestDestinationOfAttrQuery {| AttributeAuthorityDescriptorType_AttributeService := l |} {| AttributeQueryType_Destination := dest |}
+               else verifyRequestDestinationOfAuthRequest {| IDPSSODescriptorType_SingleSignOnService := l |} {| AuthnRequestType_Destination := dest |} in
+      match r, err with Some x, Some y => beq x y | None, None => true | _, _ => false end
   end.
 Definition c11_bad (cs : list c11case) : list Z := map c11_id (filter (fun c => negb (c11_ok c)) cs).
